@@ -118,6 +118,8 @@ def run_case(prop, case, model):
         replies = []
         div, py = execs.run_history(ops, model, py=py, replies=replies, expander=getattr(prop, "expand_ops", None))
         res.divergence = div
+        if hasattr(prop, "post_model") and div is None:
+            res.divergence = prop.post_model(py, model)
         res.violations = prop.oracle(case, py, replies)
         res.stats = prop.stats(case, py, replies) if hasattr(prop, "stats") else {}
     except Exception as e:  # noqa: BLE001
